@@ -32,6 +32,14 @@ CLAIMS = {
   "For every atom count, every well-formed bond list and every enumeration order: angle keys = bonded paths i-j-k (i≠k), proper keys = bonded paths over four distinct atoms, one improper per three-neighbour centre, pairs partition into bonded / non-bonded; each once. Proved on the hand model of add_angles/add_dihedrals/add_non_bonded_pairs, which is tied to the code by exhaustive correspondence over all labelled graphs on ≤5 (quick) / ≤6 (thorough) atoms plus random graphs.",
   TB + "Modelled, not verified: the Rust loops themselves (tied by correspondence); HashSet = key-deduplicated list.",
   "Lean 4 proof (induction over list folds, all graphs/orders) + exhaustive small-scope model/code correspondence", "DESIGN.md §5 C10"),
+ "C13": ("proof",
+  "For every symbol and every three printed numbers (any widths): an atom line of the written file tokenises into exactly [symbol, x, y, z]; the first line is the count; reading the written lines back yields the same atoms in order with each coordinate = parse(print(value)); the six-decimal rounding rule is within 5e-7 of the value (ties included). Proved on the hand model of XYZFile::write/read; the driver's exact implementations of {:.6} and f64::from_str reproduce the real file bytes and read-back results byte for byte.",
+  TB + "Modelled: writer/reader structure (corresponded on file bytes); std formatting/parsing by contract (corresponded).",
+  "Lean 4 proof (tokenisation lemmas, round-trip induction, rounding bound) + byte-exact file correspondence", "DESIGN.md §5 C13"),
+ "C14": ("proof",
+  "For any list of lines and any token parsers: a reader success returns element and coordinate lists that are projections of one list of per-line results (equal length, entry i from the same line), never empty; well-formed files (blank lines, any spacing, trailing columns) are read exactly in file order; files without a readable atom line are refused. Proved on the hand model, which reproduces the real reader's outcome on well-formed and corrupted files (invalid UTF-8, CRLF, Unicode spaces, every exponent spelling) including exact coordinate bits.",
+  TB + "Modelled: BufRead::lines / split_whitespace / str::parse by documented behaviour (corresponded).",
+  "Lean 4 proof (all texts, abstract token parsers) + model/code correspondence on well-formed and corrupted files", "DESIGN.md §5 C14"),
  "C16": ("proof",
   "For every N and every matrix: set_bond_orders yields exactly the bonds {(i,j,order m[i][j]) : i<j, entry non-zero} in the model of the loop (row = k / N), everything else re-derived from them on a cleared record; wrong size and unsupported upper-triangle values rejected. Model tied to the wrapper (driven from Rust through the hook) by exhaustive correspondence over all symmetric matrices on the order alphabet for N≤3 (quick) / N≤4 (thorough) plus random/asymmetric/malformed ones.",
   TB + "Modelled: the wrapper loop and the float tolerance classification (corresponded). A panic is read as rejection.",
